@@ -15,6 +15,34 @@ import (
 // forges states under the empty key and under a known wrong key.  The oracle: a
 // state that THIS instance's secret did not authenticate is rejected.
 func (h *hx) defaultSecretInstances(key, cli uint64, t0 int64) {
+	h.crossInstances(key, cli, t0, "default_secret", []instSpec{{"default-1", nil}, {"default-2", nil}},
+		map[string][]byte{"empty_key": {}, "wrong_key": h.w.Macs[1]})
+}
+
+type instSpec struct {
+	name string
+	mac  []byte // nil: HmacKey left unset
+}
+
+// longSecretInstances: HMAC secrets longer than the hash size that share their first 32
+// bytes (and one that is exactly that prefix) are different secrets.
+func (h *hx) longSecretInstances(key, cli uint64, t0 int64) {
+	prefix := append([]byte{}, h.w.Macs[0]...)
+	prefix[30] |= 1 // HMAC pads short keys with zeros: keep the 31- and 32-byte keys different secrets
+	prefix[31] |= 1
+	mk := func(tail string, n int) []byte {
+		k := append([]byte{}, prefix...)
+		for len(k) < n {
+			k = append(k, tail...)
+		}
+		return k[:n]
+	}
+	h.crossInstances(key, cli, t0, "long_secret",
+		[]instSpec{{"long-33", mk("x", 33)}, {"long-40a", mk("ay", 40)}, {"long-40b", mk("bz", 40)}, {"long-64", mk("q7", 64)}, {"short-31", prefix[:31]}},
+		map[string][]byte{"prefix_32": prefix, "prefix_31": prefix[:31], "empty_key": {}})
+}
+
+func (h *hx) crossInstances(key, cli uint64, t0 int64, fam string, insts []instSpec, forgeKeys map[string][]byte) {
 	if VerifE2EServer == nil {
 		return
 	}
@@ -22,15 +50,24 @@ func (h *hx) defaultSecretInstances(key, cli uint64, t0 int64) {
 	hostID := h.w.Intern(host)
 	ttl := time.Hour
 	tr := VerifTransport{NoTLS: true, HasFn: true, FnOK: true}
-	emptyMac := h.w.AddMac([]byte{})
-	wrongMac := uint64(1)
+	forge := map[string]uint64{}
+	for n, k := range forgeKeys {
+		forge[n] = h.w.AddMac(k)
+	}
 	macOf := map[string]uint64{}
+	specOf := map[string]instSpec{}
+	for _, in := range insts {
+		specOf[in.name] = in
+		if in.mac != nil {
+			macOf[in.name] = h.w.AddMac(in.mac)
+		}
+	}
 	// send runs one request at an instance and records it
 	send := func(inst string, now int64, items []sym.Item, tag string) (VerifE2EResult, []sym.Item) {
 		fresh := h.nextChallenge()
 		nowFn = func() time.Time { return h.w.Time(now) }
 		hdr := stdHeader(items)
-		res := VerifE2EServer(h.w.Keys[key].Priv, key, inst, nil, ttl, tr, host, host, hdr)
+		res := VerifE2EServer(h.w.Keys[key].Priv, key, inst+fmt.Sprint(t0), specOf[inst].mac, ttl, tr, host, host, hdr)
 		if res.Err != nil {
 			h.out.Cover("e2e_transport_error")
 			return res, nil
@@ -45,9 +82,9 @@ func (h *hx) defaultSecretInstances(key, cli uint64, t0 int64) {
 		}
 		cfg := srvCfg{key: key, mac: macOf[inst], ttl: ttl}
 		h.emitE2E(cfg, host, hostID, now, fresh, tr, hdr, items, res)
-		h.out.Cover("default_secret_" + tag)
+		h.out.Cover(fam + "_" + tag)
 		if res.Called {
-			h.out.Cover("default_secret_accept_" + tag)
+			h.out.Cover(fam + "_accept_" + tag)
 		}
 		out, _ := h.w.ItemsOfEmitted(res.RespHdr)
 		return res, out
@@ -70,7 +107,8 @@ func (h *hx) defaultSecretInstances(key, cli uint64, t0 int64) {
 	// valid server-initiated handshakes at each instance
 	tokens := map[string]sym.PVal{}
 	chals := map[string][]sym.Item{}
-	for _, inst := range []string{"default-1", "default-2"} {
+	for _, spec := range insts {
+		inst := spec.name
 		_, ch := send(inst, t0, nil, "no_auth")
 		chals[inst] = ch
 		res, out := send(inst, t0+sec, answer(ch), "own_challenge_answered")
@@ -82,16 +120,20 @@ func (h *hx) defaultSecretInstances(key, cli uint64, t0 int64) {
 		}
 	}
 	now := t0 + 2*sec
-	for _, a := range []string{"default-1", "default-2"} {
-		b := "default-2"
-		if a == "default-2" {
-			b = "default-1"
-		}
+	for _, sa := range insts {
+		a := sa.name
 		send(a, now, []sym.Item{{Name: "bearer", Val: tokens[a]}}, "own_token")
-		send(a, now, []sym.Item{{Name: "bearer", Val: tokens[b]}}, "token_of_the_other_instance")
-		send(a, now, answer(chals[b]), "challenge_of_the_other_instance_answered")
-		// forged by the harness: under the empty key, a known wrong key
-		for name, mk := range map[string]uint64{"empty_key": emptyMac, "wrong_key": wrongMac} {
+		for _, sb := range insts {
+			if b := sb.name; b != a {
+				send(a, now, []sym.Item{{Name: "bearer", Val: tokens[b]}}, "token_of_another_instance")
+				send(a, now, answer(chals[b]), "challenge_of_another_instance_answered")
+			}
+		}
+		// forged by the harness under keys that are not this instance's
+		for name, mk := range forge {
+			if mk == macOf[a] {
+				continue
+			}
 			pid := cli
 			tok := sym.OState{Token: true, Pid: &pid, Chal: sym.Empty(), Host: hostID, Created: now - sec}
 			send(a, now, []sym.Item{{Name: "bearer", Val: h.blob(mk, tok)}}, "token_forged_under_"+name)
@@ -101,6 +143,57 @@ func (h *hx) defaultSecretInstances(key, cli uint64, t0 int64) {
 			cst := sym.OState{Chal: sym.Atom(h.nextChallenge()), Host: hostID, Created: now - sec}
 			forged := []sym.Item{{Name: "opaque", Val: h.blob(mk, cst)}}
 			send(a, now, answer(forged), "challenge_forged_under_"+name)
+		}
+	}
+}
+
+// hostPortFamily: the Host value with an explicit port is a different hostname than the one
+// without or with another port: a challenge obtained for A, answered at B with a signature
+// over C is accepted only when A = B = C (the full Host value).
+func (h *hx) hostPortFamily(cfg srvCfg, cli uint64, t0 int64) {
+	if VerifE2EServer == nil {
+		return
+	}
+	hosts := []string{"example.com", "example.com:8443", "example.com:9443"}
+	tr := VerifTransport{NoTLS: true, HasFn: true, FnOK: true}
+	spk := sym.Pub(cfg.key)
+	chalS := h.w.PVRaw(h.w.AtomString(h.nextChallenge()))
+	send := func(host string, now int64, items []sym.Item, tag string) []sym.Item {
+		fresh := h.nextChallenge()
+		nowFn = func() time.Time { return h.w.Time(now) }
+		hdr := stdHeader(items)
+		res := VerifE2EServer(h.w.Keys[cfg.key].Priv, cfg.key, "", h.w.Macs[cfg.mac], cfg.ttl, tr, host, host, hdr)
+		if res.Err != nil {
+			h.out.Cover("e2e_transport_error")
+			return nil
+		}
+		h.emitE2E(cfg, host, h.w.Intern(host), now, fresh, tr, hdr, items, res)
+		h.out.Cover("host_port_" + tag)
+		if res.Called {
+			h.out.Cover("host_port_accept_" + tag)
+		}
+		out, _ := h.w.ItemsOfEmitted(res.RespHdr)
+		return out
+	}
+	for ai, a := range hosts {
+		ch := send(a, t0, nil, "challenge")
+		opq, ok := get(ch, "opaque")
+		if !ok {
+			continue
+		}
+		cc, _ := get(ch, "challenge-client")
+		chal := h.w.RawTerm(cc.Raw)
+		for bi, b := range hosts {
+			for ci, c := range hosts {
+				sg := h.pv(sym.Sig(cli, sym.MsgClient(chal, spk, sym.Atom(h.w.Intern(c))), 0))
+				items := []sym.Item{{Name: "opaque", Val: opq}, {Name: "sig", Val: sg},
+					{Name: "public-key", Val: h.pv(sym.Pub(cli))}, {Name: "challenge-server", Val: chalS}}
+				tag := "mixed"
+				if ai == bi && bi == ci {
+					tag = "same_host_everywhere"
+				}
+				send(b, t0+sec, items, tag)
+			}
 		}
 	}
 }
